@@ -458,6 +458,9 @@ def classify_post_guard(t, v):
         return None       # an ordering test on anything else (a spend index, a position) is order-dependent
     if t[0] == "next":
         return "iteration"
+    if t[0] in ("Iterator::all", "Iterator::any"):
+        # a quantifier over a collection: commutative; the closure's own guards are classified with the function's
+        return "quantifier"
     if t[0] in ("HashSet::contains", "HashMap::contains_key", "HashMap::get", "HashSet::is_empty", "Vec::is_empty", "HashMap::is_empty"):
         return "membership"
     if len(t) == 2 and isinstance(t[0], str) and t[0].startswith(".") and v in ("Some", "None"):
@@ -480,10 +483,11 @@ def c06_3(ctx):
             continue
         bad = []
         seen = set()
-        for node in b.edge_info:
-            if b.edge_info[node][0] not in b.reach:
+        bodies_ = [b] + [Body(c, ctx.fb) for c in ctx.fb.closures_of(b.path)]
+        for b_, node in [(x, nd) for x in bodies_ for nd in x.edge_info]:
+            if b_.edge_info[node][0] not in b_.reach:
                 continue
-            t, lab = b.edge_condition(node)
+            t, lab = b_.edge_condition(node)
             f = apnf.fact(t, lab)
             if lab[0] == "try":
                 continue
